@@ -15,7 +15,7 @@ LEVEL = 'other'
 MANIFEST = {
     'engine': 'pysym+frames',
     'level': 'other',
-    'technique': 'symbolic execution of the fallback handler and of the renderer\'s own raising sites; syntactic census of raise statements and attribute stores; exhaustive run of corpus trees through the real renderer as bounded stand-in',
+    'technique': 'symbolic execution of the fallback handler, of the renderer\'s own raising sites and of every @compiles hook for an arbitrary payload; syntactic census of raise statements and attribute stores; exhaustive run of corpus trees through the real renderer as bounded stand-in',
     'text': 'The handler is proved to implement the contract for the exception classes it names; whether the translation can raise other '
             'classes is decided for the renderer\'s own code (raise statements, table lookups, attribute stores) and only monitored for '
             'calls into SQLAlchemy. Genuine leaks on the unchanged tree are listed as known findings.',
